@@ -296,6 +296,15 @@ def run(ctx: core.Check):
         if len(tr.events) > 4000:
             toolrun.report(ctx, tr, label="extract-random", keyfn=lambda b, s: f"{b['clause']}:{s.get('omit')}:{s.get('dep')}:{s.get('name')}:{len(s['env'])}")
             tr = toolrun.Trace()
+    # every residue of the first cache slot against erase blocks beyond the short padding headers (23 / 24 / 25 / 26 ... bytes of
+    # padding need eb > 26): one payload of every size 0..70 at eb 32 and 64, and 100
+    for eb in ((32, 64) if ctx.quick else (27, 32, 48, 64, 100, 256)):
+        for dl in range(0, 71 if eb <= 64 else 101):
+            root = make_env(ctx, d, ctx.rng, 50000 + eb * 200 + dl, [("#s", envgen.blob(dl, dl + eb))], [])
+            run_cache(ctx, tr, root, None, None, eb, "lib", {"origin": "residues", "omit": None, "dep": None, "env": root, "stale": False})
+        if len(tr.events) > 4000:
+            toolrun.report(ctx, tr, label="extract-random", keyfn=lambda b, s: f"{b['clause']}:{s.get('omit')}:{s.get('dep')}:{s.get('name')}:{len(s['env'])}")
+            tr = toolrun.Trace()
     toolrun.report(ctx, tr, label="extract-random", keyfn=lambda b, s: f"{b['clause']}:{s.get('omit')}:{s.get('dep')}:{s.get('name')}:{len(s['env'])}")
     ctx.observe("O7: payload_extract with a payload name that is not in the envelope logs an error, still writes the output "
                 "envelope, then fails with TypeError when an output payload file was requested; C11 quantifies over payloads "
